@@ -22,6 +22,6 @@ def statement_total : Prop :=
     0 < g.n → g.wf = true → ie.length = g.edges.length → BoolArgs base ie →
     ∃ p, activeEdgesAcyclic g ie base = .ok p
 
-theorem C09_total : statement_total := Cspuz.Proofs.C09.total
+theorem C09_total : statement_total := Cspuz.Proofs.C09L1.total
 
 end Cspuz.C09
